@@ -373,7 +373,7 @@ fn arb_value() -> BoxedStrategy<Node> {
 
 fn key_variants(base: usize, variant: usize) -> Node {
     // the same key in different presentations; `base` selects the key identity
-    match base % 11 {
+    match base % 13 {
         0 => match variant % 3 {
             0 => s("a"),
             1 => Node::scalar("a", Style::Double),
@@ -415,6 +415,19 @@ fn key_variants(base: usize, variant: usize) -> Node {
             1 => Node::scalar("", Style::Double).tagged("!!str"),
             _ => Node::plain("~").tagged("!!str"),
         },
+        // a tag on a node *inside* a sequence or mapping key is part of that key as well
+        // (`[!t a, b]`, `[!u a, b]` and the `[a, b]` of identity 3 are three keys; the style of
+        // the tagged scalar is not)
+        11 => match variant % 3 {
+            0 => Node::seq(true, vec![s("a").tagged("!t"), s("b")]),
+            1 => Node::seq(true, vec![s("a").tagged("!u"), s("b")]),
+            _ => Node::seq(true, vec![Node::scalar("a", Style::Double).tagged("!t"), s("b")]),
+        },
+        12 => match variant % 3 {
+            0 => Node::map(true, vec![(s("a"), s("1").tagged("!t"))]),
+            1 => Node::map(true, vec![(s("a"), s("1").tagged("!u"))]),
+            _ => Node::map(true, vec![(s("a").tagged("!t"), s("1"))]),
+        },
         7 => match variant % 3 {
             0 => Node::seq(true, vec![s("a"), s("b")]).tagged("!t"),
             1 => Node::seq(true, vec![s("a"), s("b")]).tagged("!u"),
@@ -434,10 +447,10 @@ fn make_case(es: Vec<(usize, usize, Node)>, lb: u32, target: Target, place: usiz
     let struct_keys = ["a", "b", "c", "k", "x", "y"];
     for (base, var, v) in es {
         // (the all-strings target cannot take the null key: the empty string stands in)
-        let base = if target == Target::ShapeStr && base % 11 == 8 { 9 } else { base };
+        let base = if target == Target::ShapeStr && base % 13 == 8 { 9 } else { base };
         // (`!!str` followed by nothing is the empty string for string targets; an untyped target
         // reads a null there - a matter of scalar interpretation, not of key identity)
-        let var = if target != Target::ShapeStr && base % 11 == 10 && var % 3 == 0 { 1 } else { var };
+        let var = if target != Target::ShapeStr && base % 13 == 10 && var % 3 == 0 { 1 } else { var };
         let k = if target == Target::Struct { s(struct_keys[base % 3]) } else { key_variants(base, var) };
         entries.push((k, v));
     }
@@ -554,7 +567,7 @@ impl Property for C04 {
         let n = 1 + b.below(6);
         let es: Vec<(usize, usize, Node)> = (0..n)
             .map(|_| {
-                let base = b.below(11);
+                let base = b.below(13);
                 let var = b.below(3);
                 let v = match b.below(9) {
                     0..=3 => gdoc::scalar_from_bytes(&mut b),
@@ -622,7 +635,7 @@ impl Property for C04 {
         ctx.subspace("mappings with <= 4 entries x 2 key identities x 3 key kinds x 3 value shapes x 3 placements x block/flow", total, true);
 
         // ---------------- random: mixed key presentations, aliases, nested
-        let entry = (0usize..11, 0usize..3, arb_value());
+        let entry = (0usize..13, 0usize..3, arb_value());
         let strat = (
             prop::collection::vec(entry, 1..7),
             any::<bool>(),
